@@ -183,9 +183,58 @@ fn broken(rng: &mut Rng) -> TextItem {
     TextItem { text, category: "broken", planted: 0 }
 }
 
+/// A random sequence of Kiki lexemes (and near-lexemes): exercises the tokenizer's and the front-end
+/// parser's error paths far more uniformly than mutations of valid files do.
+fn lexeme_soup(rng: &mut Rng) -> TextItem {
+    const WORDS: &[&str] = &[
+        "start", "struct", "enum", "terminal", "_", "Expr", "Token", "item", "x", "Foo_bar", "a1", "A", "String",
+        "std", "Vec", "Option", "crate",
+    ];
+    const PUNCT: &[&str] = &[":", "::", ",", "(", ")", "{", "}", "<", ">", ":::", "::::"];
+    const ATTRS: &[&str] = &[
+        "#[derive(Debug)]", "#[a(b[c{d}])]", "#[derive(Clone, Debug])", "#[foo(])", "#[x{y)]", "#[]", "#[", "#", "#[a]]",
+        "#[doc = \"é\"]", "#[(])", "#[a(b)] #[c]",
+    ];
+    const ODD: &[&str] = &["$", "$$", "$struct", "$_", "$1", "/", "/ /", "@", "é", "\u{a0}", "\t", "\r\n", "1abc", "-", ";", "'", "\"", "$é"];
+    let n = rng.range(3, 60);
+    let mut text = String::new();
+    for _ in 0..n {
+        match rng.weighted(&[30, 12, 25, 6, 5, 8, 6]) {
+            0 => text.push_str(*rng.pick(WORDS)),
+            1 => {
+                text.push('$');
+                text.push_str(*rng.pick(WORDS));
+            }
+            2 => text.push_str(*rng.pick(PUNCT)),
+            3 => {
+                text.push_str(*rng.pick(ATTRS));
+                if rng.chance(2, 3) {
+                    text.push('\n');
+                }
+            }
+            4 => text.push_str(*rng.pick(ODD)),
+            5 => {
+                text.push_str("// comment ");
+                text.push_str(*rng.pick(ODD));
+                if rng.chance(4, 5) {
+                    text.push('\n');
+                }
+            }
+            _ => text.push('\n'),
+        }
+        text.push_str(match rng.below(6) {
+            0 => "",
+            1 => "\n",
+            _ => " ",
+        });
+    }
+    TextItem { text, category: "lexeme-soup", planted: 0 }
+}
+
 /// One generated input text, a pure function of the PRNG state.
 pub fn ambient_text(rng: &mut Rng) -> TextItem {
-    match rng.weighted(&[20, 12, 16, 34, 10, 8, 5, 3]) {
+    match rng.weighted(&[20, 12, 16, 34, 10, 8, 5, 3, 7]) {
+        8 => lexeme_soup(rng),
         7 => {
             // many independent conflicts in a machine of hundreds of states (which conflict is
             // reported must not depend on anything but the text)
